@@ -65,6 +65,20 @@ func worlds(tier string) []*world {
 	for _, cf := range ckksCfgs(tier) {
 		ws = append(ws, ckksWorld(cf))
 	}
+	// evaluation keys generated below the maximum (fewer auxiliary primes, lower level) on parameter sets with 2 and 3
+	// auxiliary primes: plain and explicitly decomposed (hoisted, lazy) rotations
+	for _, rk := range []struct {
+		cf     cklib.Cfg
+		lq, lp int
+	}{
+		{cklib.Cfg{Name: "std-logN4-P2", RingType: ring.Standard, LogN: 4, LogQ: []int{55, 45, 45}, LogP: []int{61, 61}, LogScale: 45, LogSlots: -1}, 2, 0},
+		{cklib.Cfg{Name: "std-logN4-P3", RingType: ring.Standard, LogN: 4, LogQ: []int{55, 45, 45, 45}, LogP: []int{61, 61, 61}, LogScale: 45, LogSlots: -1}, 2, 1},
+		{cklib.Cfg{Name: "ci-logN5-P2", RingType: ring.ConjugateInvariant, LogN: 5, LogQ: []int{55, 45, 45}, LogP: []int{61, 61}, LogScale: 45, LogSlots: -1}, 1, 0},
+		{cklib.Cfg{Name: "std-logN5-P3", RingType: ring.Standard, LogN: 5, LogQ: []int{55, 45, 45, 45}, LogP: []int{61, 61, 61}, LogScale: 45, LogSlots: -1}, 3, 0},
+	} {
+		ws = append(ws, reducedKeys(ckksWorld(rk.cf), rk.lq, rk.lp))
+	}
+	ws = append(ws, reducedKeys(bgvWorld(4, 2, 97, 0), 1, 0), reducedKeys(bgvWorld(5, 2, 193, 0), 2, 0))
 	// BGV: t=97/193/257 plaintext ring = ciphertext ring; t=17 (LogN 4, 5) plaintext ring smaller (gap 2, 4);
 	// without P both the default keys and base-2^16 keys
 	ws = append(ws, bgvWorld(4, 1, 97, 0), bgvWorld(4, 0, 97, 0), bgvWorld(4, 0, 97, 16), bgvWorld(4, 2, 97, 0), bgvWorld(4, 1, 17, 0),
@@ -95,6 +109,10 @@ func scenarios(tier string) []engine.Scenario {
 	}
 	// worlds are built lazily, once per worker process that needs them, from (VERIF_SEED, name) only
 	for _, w := range worlds(tier) {
+		if w.keyLP != -2 {
+			scs = append(scs, rotateScenario(w)) // reduced-level keys: rotations only (see reducedKeys)
+			continue
+		}
 		scs = append(scs, rotateScenario(w), traceScenario(w), lateKeysScenario(w))
 		for mi := range sumMethods {
 			scs = append(scs, sumsScenario(w, mi))
@@ -182,7 +200,7 @@ func main() {
 				"packing=Expand", "packing=Pack-zeroing", "packing=Pack-clean", "rlwe-auto=ntt-false", "rlwe-auto=ntt-true", "rlwe-auto=hoisted",
 				"rlwe-sum=PartialTracesSum-ntt-false", "rlwe-sum=Replicate-ntt-false", "rlwe-sum=InnerFunction-user-ntt-false", "rlwe-sum=Trace-ntt-false", "rlwe-sum=Trace-ntt-true",
 				"trace=skipped-small-plaintext-ring", "bgv-plaintext-ring=smaller",
-				"many-terms=rlwe-hw9", "many-terms=rlwe-hw10", "many-terms=rlwe-hw11", "many-terms=rlwe-hw12", "many-terms=ckks-hw11", "many-terms=bgv-hw11", "many-terms=ckks-hw10"}
+				"refusal=missing-key", "refusal=degree-2-input", "refusal=sum-without-keys", "domain=ntt", "domain=coefficient", "domain=coefficient-sums", "keys=reduced-level", "many-terms=rlwe-hw9", "many-terms=rlwe-hw10", "many-terms=rlwe-hw11", "many-terms=rlwe-hw12", "many-terms=ckks-hw11", "many-terms=bgv-hw11", "many-terms=ckks-hw10"}
 			for _, m := range sumMethods {
 				e = append(e, "sum="+m)
 			}
